@@ -9,6 +9,7 @@ thread_local HashLog hashlog;
 
 void CoinSource::fill(unsigned char *out, size_t n, int level)
 {
+	if (budget && ++draws > budget) { draws = 0; budget = 0; throw CoinBudgetExceeded(); }
 	for (size_t i = 0; i < n; ) {
 		if (script_pos < script.size()) { out[i++] = script[script_pos++]; continue; }
 		uint64_t w = prng.next();
